@@ -407,7 +407,7 @@ type closeAnalysis struct {
 	ev    *Events
 }
 
-func ownerField(w *World, v *types.Var) string { return ownerOfField(w, v) + "." + v.Name() }
+func ownerField(w *World, v *types.Var) string { return w.canonField(v) }
 
 // closeEvents is the event alphabet of the Close analysis; it is also used to
 // summarise helpers that Close delegates to.
